@@ -1,7 +1,7 @@
 #include <stdlib.h>
 #include "slu_mt_@p@defs.h"
 /* BOUNDED unit (label B(n)): the real ?PresetMap (static storage image of the L supernodes in lusup[]) is executed symbolically for every
- * 1 <= n <= CAP, every partition of 0..n-1 into H-supernodes (part_super_h), every valid list of relaxed supernodes, every colcnt_h >= 1,
+ * 1 <= n <= NMAX <= CAP, every partition of 0..n-1 into H-supernodes (part_super_h), every valid list of relaxed supernodes, every colcnt_h >= 1,
  * every column structure of A with at most COLLEN entries per column, in the static (DYN=0) and the dynamic (DYN=1) scheme.
  * The result is compared with the definition of the slot layout written down here (not with a copy of the routine):
  *   a SLOT starts at column 0; a slot starting at s is
@@ -15,7 +15,7 @@ int_t nondet_int_t(void);
 int_t in_n; pxgstrf_relax_t in_relax[CAP+2]; int_t in_colcnt[CAP], in_super_bnd[CAP];
 SuperMatrix in_A; NCPformat in_Astore; int_t in_rowind[NNZ], in_colbeg[CAP], in_colend[CAP];
 superlumt_options_t in_o; GlobalLU_t in_Glu;
-int_t g_sb0[CAP], g_sb1[CAP], g_map[CAP+1], g_colcnt0[CAP], g_ret, g_nslots, g_relaxed_slots, g_straddle, g_split, g_c, g_maxpos;
+int_t g_sb0[CAP], g_sb1[CAP], g_map[CAP+1], g_colcnt0[CAP], g_ret, g_nslots, g_relaxed_slots, g_straddle, g_split, g_c, g_maxpos, g_colcnt_wins, g_rows_win;
 int g_argbad;
 
 /* ---- callees: executable contracts ---- */
@@ -57,7 +57,7 @@ void h_preset_map(void) {
   in_Glu.map_in_sup = 0; in_Glu.nextlu = nondet_int_t(); in_Glu.dynamic_snode_bound = nondet_int_t() ? YES : NO;
 
   /* ---------- valid inputs ---------- */
-  __CPROVER_assume(1 <= in_n && in_n <= CAP);
+  __CPROVER_assume(1 <= in_n && in_n <= NMAX);      /* NMAX <= CAP: bound of the variant */
   /* part_super_h: size at the first column of each H-supernode, 0 elsewhere; the supernodes partition 0..n-1 */
   pos = 0;
   for (c = 0; c < CAP; c++) if (c < in_n) {
@@ -101,7 +101,7 @@ void h_preset_map(void) {
       __CPROVER_assert(g_sb1[c + t] == (t == 0 ? first : ((t - first) % MAXSUP == 0 ? MAXSUP : 0)), "part_super_h after splitting: pieces of at most maxsuper columns covering the old supernode");
   }
   /* (2) slot layout */
-  pos = 0; s = 0; rsi = 1; g_nslots = 0; g_relaxed_slots = 0; g_straddle = 0; g_maxpos = 0;
+  pos = 0; s = 0; rsi = 1; g_nslots = 0; g_relaxed_slots = 0; g_straddle = 0; g_colcnt_wins = 0; g_rows_win = 0; g_maxpos = 0;
   g_c = nondet_int_t(); __CPROVER_assume(0 <= g_c && g_c < in_n); slot_of = -1;
   for (q = 0; q < CAP; q++) if (s < in_n) {
     __CPROVER_assert(is_head(s), "a slot starts at the first column of an H-supernode");
@@ -117,7 +117,7 @@ void h_preset_map(void) {
       for (c = 0; c < CAP; c++) if (c < in_n) { if (is_head(c) && s <= c && c < last) k = c; }
       for (c = CAP - 1; c >= 0; c--) if (c < in_n && c >= last && is_head(c)) e = c;
       if (e == last && !(last < in_n && is_head(last))) e = in_n;     /* no H-supernode starts at or after last */
-      if (e > last) g_straddle = 1;
+      if (e > last) { g_straddle = 1; if (g_colcnt0[k] > rows) g_colcnt_wins = 1; if (rows > g_colcnt0[k]) g_rows_win = 1; }
       reserve = size * rows + (e - last) * (rows > g_colcnt0[k] ? rows : g_colcnt0[k]);
       __CPROVER_assert(g_map[s] == pos, "relaxed slot starts where the previous slot ends (both schemes)");
     } else {
@@ -144,8 +144,9 @@ void h_preset_map(void) {
   /* ---------- canaries ---------- */
   __CPROVER_assert(0, "canary: PresetMap returns");
   if (g_straddle) __CPROVER_assert(0, "canary: an H-supernode extends past the end of a relaxed supernode");
-  if (g_straddle && g_ret > 0 && g_relaxed_slots == 1 && in_relax[1].size == 1 && g_colcnt0[in_relax[1].fcol] > 1 && g_nslots == 1 && g_ret == in_n * g_colcnt0[0]) __CPROVER_assert(0, "canary: trailing columns reserved with colcnt_h > rows of the relaxed supernode");
-  if (g_split && in_n == CAP && g_sb0[0] == CAP) __CPROVER_assert(0, "canary: one H-supernode of full width is split");
+  if (g_colcnt_wins) __CPROVER_assert(0, "canary: trailing columns reserved with colcnt_h > rows of the relaxed supernode");
+  if (g_rows_win) __CPROVER_assert(0, "canary: trailing columns reserved with rows of the relaxed supernode > colcnt_h");
+  if (g_split && in_n == NMAX && g_sb0[0] == NMAX) __CPROVER_assert(0, "canary: one H-supernode of full width is split");
   if (g_nslots >= 3 && g_relaxed_slots >= 1 && g_relaxed_slots < g_nslots) __CPROVER_assert(0, "canary: relaxed and H-supernode slots mixed");
   if (in_n == 1) __CPROVER_assert(0, "canary: order 1");
   if (nrs == 0) __CPROVER_assert(0, "canary: no relaxed supernode");
